@@ -11,16 +11,21 @@
 (*          gain-change pattern; and the forced voiced->unvoiced transition   *)
 (*          for every lagPrev in MinLag..MaxLag                               *)
 (*  "plc"   silk_PLC_conceal: geometry x every start pitch (every lag in       *)
+(*          range [thinned by LiStep in the quick tier, extremes kept]        *)
 (*          range, and silk_PLC_Reset's frame_length/2), then Conceal steps    *)
 (*          until the lag clamp is reached (closed: the fixpoint)             *)
 (*  "cng", "carve"  silk_CNG, the stereo carving                              *)
 (*  "m"     the frame-to-frame machine: SetFs / DecodeGood / Conceal / Reset   *)
 (*          with outBuf as blocks of one sub-frame, lagPrev as a class         *)
 (* LagSlack raises the lag clamp (0: the code; > 0: witness runs).            *)
+(* BoxLags (witness): lag vectors from the whole box instead of the contour   *)
+(* code books - NoReadBeforeWrite must then be REFUTED (a lag that grows by   *)
+(* more than a sub-frame between sub-frames reads sLTP_Q15 below the          *)
+(* back-filled part): the theorem rests on the code books' small deltas.      *)
 (***************************************************************************)
 EXTENDS SilkDecCore
 
-CONSTANTS LagSlack, LiStep, FsSet, NbSet
+CONSTANTS LagSlack, LiStep, FsSet, NbSet, BoxLags
 VARIABLE s
 
 SP == INSTANCE SilkParams
@@ -30,7 +35,9 @@ LiHi(fs) == SP!MaxAbsLagIndex(fs) + 22
 LiSet(fs) == {li \in (-LiLo)..LiHi(fs) : li % LiStep = 0 \/ li <= 0 \/ li >= SP!MaxAbsLagIndex(fs) - 12}
 Raise(fs, l) == IF l = MaxLag(fs) THEN l + LagSlack ELSE l
 Pad4(v, nb) == [k \in 1..4 |-> IF k <= nb THEN v[k] ELSE 0]
-LagVecs(fs, nb) == {Pad4([k \in 1..nb |-> Raise(fs, SP!PitchLags(li, ci, fs, nb)[k])], nb) : li \in LiSet(fs), ci \in 0..(SP!NContours(fs, nb) - 1)}
+\* BoxLags (witness only): lag vectors that no contour can produce - the extremes of the box [MinLag, MaxLag]^nb
+BoxVecs(fs, nb) == {Pad4(v, nb) : v \in [1..nb -> {MinLag(fs), MaxLag(fs)}]}
+LagVecs(fs, nb) == IF BoxLags THEN BoxVecs(fs, nb) ELSE {Pad4([k \in 1..nb |-> Raise(fs, SP!PitchLags(li, ci, fs, nb)[k])], nb) : li \in LiSet(fs), ci \in 0..(SP!NContours(fs, nb) - 1)}
 \* gain patterns: 0 no change; 1 every gain differs and rescales; 2 every gain differs, gain_adj_Q16 rounds to 1<<16; 3 / 4 only sub-frame 1 / 3
 GainPat(m) == CASE m = 0 -> [gch |-> <<0, 0, 0, 0>>, ga |-> <<0, 0, 0, 0>>]
                 [] m = 1 -> [gch |-> <<1, 1, 1, 1>>, ga |-> <<1, 1, 1, 1>>]
@@ -68,7 +75,7 @@ MNext(m) ==
   \/ s' = MLost(m)
   \/ \E fs \in FsSet, nb \in NbSet : s' = Fresh(fs, nb)
 
-PlcStartSet(fs, nb) == {256 * l : l \in MinLag(fs)..(MaxLag(fs) + LagSlack)} \cup {nb * 5 * fs * 128}
+PlcStartSet(fs, nb) == {256 * l : l \in {x \in MinLag(fs)..(MaxLag(fs) + LagSlack) : x % LiStep = 0 \/ x <= MinLag(fs) + 2 \/ x >= MaxLag(fs) - 4}} \cup {nb * 5 * fs * 128}
 PlcShapes(fs) == {<<2, 20>>, <<2, 5 * fs>>, <<4, 5 * fs>>}
 \* the root fans out in two steps so that TLC's workers share the enumeration
 RootNext == \E fs \in FsSet, nb \in NbSet, ip \in {0, 1}, m \in 0..4 : s' = [kind |-> "fan", fs |-> fs, nb |-> nb, ip |-> ip, m |-> m]
